@@ -40,6 +40,8 @@ KIND_SIG = {
     "call-wrong-instance-of-several": "mono:call-redirected-to-first-instance-of-several",
     "struct-missing-init-renamed": "mono:structinit-renamed-to-missing-struct",
     "type-param-in-reachable-struct": "mono:generic-struct-keeps-param-field",
+    "type-param-in-nested-function-of-generic": "lower:closure-in-generic-keeps-type-param",
+    "type-param-in-closure-env-of-generic": "lower:closure-in-generic-keeps-type-param",
     "generic-callee-in-instance": "mono:generic-callee-in-instance-never-requested",
     "instance-call-no-exact-instance": "mono:generic-callee-in-instance-never-requested",
     "struct-missing-type-param-name:in-caller": "lower:type-param-name-as-struct:generic-result-in-caller",
